@@ -808,7 +808,11 @@ CONT_OBS.update({
         ':: ("mipmap_count", "mipmap_count" :: nil) :: ("flags", "VTFFlags(flags)" :: nil) :: ("reflectivity", "Vec(ref_r, ref_g, ref_b)" :: nil) '
         ':: ("bumpmap_scale", "bumpmap_scale" :: nil) :: ("format", "FORMAT_ORDER[high_format]" :: nil) '
         ':: ("version", "(version_major, version_minor)" :: nil) :: ("low_format", "FORMAT_ORDER[low_format]" :: nil) :: nil)%string',
-    'reader_tests_resource_flag_2': 'gen_read_tests_flag_2',
+    'out_of_line_entries_store_the_flags_with_exactly_bit_2_cleared': 'offset_flags_ok gen_flagcfg',
+    'inline_entries_store_the_flags_with_exactly_bit_2_set': 'inline_flags_ok gen_flagcfg',
+    'reader_fetches_a_data_block_exactly_when_bit_2_is_clear': 'read_test_ok gen_flagcfg',
+    'fixed_entries_low_high_sheet_have_flags_0': '(fixed_flags_ok gen_flagcfg && Nat.leb 2 (List.length gen_flag_fixed))%bool',
+    'resource_flag_configuration_ok': 'flags_ok gen_flagcfg',
     'sheet_reader_advances_by_the_record_sizes':
         'match gen_sheet_incs with (a :: b :: c :: d :: e :: nil) => (Z.eqb a (Z.of_nat (calcsize (fmt_of (r_fmt gen_sheet_head)))) '
         '&& Z.eqb b (Z.of_nat (calcsize (fmt_of (r_fmt gen_sheet_seq)))) && Z.eqb c (Z.of_nat (calcsize (fmt_of (r_fmt gen_sheet_dur)))) '
@@ -836,13 +840,13 @@ Definition ser_sheet (bs : list N) : list N :=
         ++ flat_map (fun f => sf_duration f :: List.concat (sf_coords f)) (sq_frames q)) qs
   end.
 Definition dec (low_size : nat) (bs : list N) : list N :=
-  match decode_file F low_size bs with
+  match decode_file F gen_flagcfg low_size bs with
   | None => [999]%N
   | Some (m, hdr, d, res, sheet, lo, hi) =>
       [zn m] ++ flat_map serv hdr ++ [zn d; N.of_nat (List.length res)] ++ flat_map ser_res res
       ++ match sheet with Some sb => 1%N :: ser_sheet sb | None => [0]%N end ++ [N.of_nat lo; N.of_nat hi]
   end.
-Definition enc (v : vfile) : list N := match encode_file F v with Some bs => bs | None => [999]%N end.
+Definition enc (v : vfile) : list N := match encode_file F gen_flagcfg v with Some bs => bs | None => [999]%N end.
 Definition mk_sheet (ver : Z) (qs : list sheet_seq) : list N := match make_sheet SF ver qs with Some bs => bs | None => [999]%N end.
 """
 
@@ -1433,8 +1437,11 @@ def run(ck: Ck) -> None:
     search_filters(ck)
     search_files(ck)
     search_cube_override(ck)
-    # which broken obligations do the concrete violations explain?
-    keys = {v['key'] for v in ck.violations}
+    # which broken obligations do the concrete violations explain?  Only NEW violations count: a known finding is reported
+    # on every run and explains nothing that breaks today (round 3: the known mipmap-count finding used to explain a
+    # failed layout translation, so a tree on which the proof side was not checked at all could exit 0).
+    known_keys = {k['key'] for k in common.load_known().get('known', []) if k.get('property') == ck.pid}
+    keys = {v['key'] for v in ck.violations if v['key'] not in known_keys}
     for k in keys:
         if k.startswith(('pixel-mismatch-', 'stored-not-fixpoint-', 'thumbnail-mismatch-')):
             f = k.rsplit('-', 1)[1]
@@ -1451,7 +1458,11 @@ def run(ck: Ck) -> None:
             ck.explain('instance:every_deferred')
             ck.explain('instance:version_tests')
             ck.explain('instance:padding_')
-            ck.explain('instance:reader_tests')
+            ck.explain('instance:reader_fetches')
+            ck.explain('instance:out_of_line_entries')
+            ck.explain('instance:inline_entries')
+            ck.explain('instance:fixed_entries')
+            ck.explain('instance:resource_flag')
             ck.explain('correspondence:container')
         if k.startswith(('frame-history-', 'lazy-resave-')):
             ck.explain('instance:frame_')
@@ -1479,7 +1490,11 @@ def run(ck: Ck) -> None:
             ck.explain('instance:every_deferred')
             ck.explain('instance:version_tests')
             ck.explain('instance:padding_')
-            ck.explain('instance:reader_tests')
+            ck.explain('instance:reader_fetches')
+            ck.explain('instance:out_of_line_entries')
+            ck.explain('instance:inline_entries')
+            ck.explain('instance:fixed_entries')
+            ck.explain('instance:resource_flag')
             ck.explain('correspondence:container')
             ck.explain('instance:mip')
             ck.explain('instance:read_level')
